@@ -26,29 +26,29 @@ var c03Arity = map[string][2]int{
 	"apache": {3, 3}, "cargo": {3, 3}, "github": {3, 3}, "golang": {3, 3}, "hex": {3, 3}, "mattermost": {3, 3}, "npm": {3, 3}, "semver": {3, 3},
 }
 
-var semPre = []string{"-alpha", "-alpha.1", "-rc.1", "-rc1", "-0", "-beta.2", "-x"}
+var semPre = []string{"-alpha", "-alpha.1", "-rc.1", "-rc1", "-0", "-beta.2", "-x", "-ALPHA", "-RC.1", "-Beta2"}
 
 // marker tables: built from the parsers, every spelling is accepted on the
 // tree the harness was developed against (checked by TestSelfMarkers).
 var c03Pre = map[string][]string{
 	"alpine":     {"_alpha", "_beta", "_pre", "_rc", "_alpha1", "_beta2", "_pre3", "_rc1"},
-	"alpm":       {"alpha", "beta", "pre", "rc", "alpha1", "beta2", "pre3", "rc1"},
-	"apache":     {"-alpha", "-beta", "-M1", "-RC1", "-rc1", "-SNAPSHOT", "-dev", "-beta2", "-milestone2"},
+	"alpm":       {"alpha", "beta", "pre", "rc", "alpha1", "beta2", "pre3", "rc1", "RC1", "Beta2", "ALPHA", "a", "Rc"},
+	"apache":     {"-alpha", "-beta", "-M1", "-RC1", "-rc1", "-SNAPSHOT", "-dev", "-beta2", "-milestone2", "-ALPHA", "-Beta1", "-snapshot", "-m2", "-Milestone3", "-DEV"},
 	"cargo":      semPre,
 	"composer":   {"-alpha1", "-beta2", "-RC1", "-rc1", "a1", "b2", "RC3", "-dev", "-alpha", "-beta.1"},
-	"conan":      {"-alpha", "-rc.1", "-beta.2", "-0"},
-	"debian":     {"~rc1", "~beta1", "~", "~~", "~alpha"},
-	"gem":        {".rc1", ".pre", ".a", "-rc1", "-alpha", ".beta2", ".rc"},
+	"conan":      {"-alpha", "-rc.1", "-beta.2", "-0", "-ALPHA", "-RC.1"},
+	"debian":     {"~rc1", "~beta1", "~", "~~", "~alpha", "~RC1", "~Beta"},
+	"gem":        {".rc1", ".pre", ".a", "-rc1", "-alpha", ".beta2", ".rc", ".RC1", ".PRE", "-Alpha"},
 	"gentoo":     {"_alpha", "_beta", "_pre", "_rc", "_alpha1", "_beta2", "_pre3", "_rc1"},
-	"github":     {"-alpha", "-beta.1", "-rc.2", ".rc1", "-SNAPSHOT", "-dev", "-rc1"},
+	"github":     {"-alpha", "-beta.1", "-rc.2", ".rc1", "-SNAPSHOT", "-dev", "-rc1", "-ALPHA", "-RC.1", "-Beta2", "-snapshot", ".DEV"},
 	"golang":     semPre,
 	"hex":        semPre,
 	"mattermost": {"-rc1", "-rc", "-rc2"},
-	"maven":      {"-alpha-1", "-a1", "-beta-2", "-M1", "-milestone-1", "-rc1", "-RC1", "-cr1", "-SNAPSHOT", "-alpha", ".beta1", "-rc-2"},
+	"maven":      {"-alpha-1", "-a1", "-beta-2", "-M1", "-milestone-1", "-rc1", "-RC1", "-cr1", "-SNAPSHOT", "-alpha", ".beta1", "-rc-2", "-ALPHA-1", "-Rc1", "-snapshot", "-m2", "-CR2", "-b3", ".A1", "-Beta"},
 	"npm":        semPre,
 	"nuget":      semPre,
 	"pypi":       {"a1", "b2", "rc1", "c1", "alpha1", ".dev1", "beta3", ".a1", "dev0"},
-	"rpm":        {"~rc1", "~beta", "~", "~~", "~1"},
+	"rpm":        {"~rc1", "~beta", "~", "~~", "~1", "~RC1", "~Beta"},
 	"semver":     semPre,
 }
 
@@ -57,7 +57,7 @@ var c03Post = map[string][]string{
 	"composer": {"-patch1", "pl1", "-patch2", "pl2"},
 	"debian":   {"-1", "+b1", "+dfsg", "-2", "-1ubuntu1", "-0.1"},
 	"gentoo":   {"_p1", "_p", "-r1", "-r2", "_p2"},
-	"maven":    {"-sp", "-sp1", "-1", "-2", "-sp-1"},
+	"maven":    {"-sp", "-sp1", "-1", "-2", "-sp-1", "-SP", "-Sp1"},
 	"nuget":    {".1", ".2", ".10"},
 	"pypi":     {".post1", "post1", ".rev1", ".r1", ".post0"},
 	"rpm":      {"-1", "^git1", "-2", "^1", "-1.el8"},
